@@ -2,7 +2,7 @@
 # tools/verify_seed.sh Cxx k : confirm a mutation-author result (patch applies, suite unchanged,
 # demo PASS pristine / FAIL mutated) in the author's scratch worktree, then store it under seeded/.
 id=$1; k=$2
-wt=/tmp/mut-$id; out=/tmp/mut-$id-out
+w=${3:-1}; if [ "$w" = 2 ]; then wt=/tmp/mut2-$id; out=/tmp/mut2-$id-out; else wt=/tmp/mut-$id; out=/tmp/mut-$id-out; fi; kk=$(( k + 2*(w-1) ))
 cd $wt || exit 2
 git checkout -q -- . ; git status --short | grep -q . && { echo "worktree dirty"; exit 2; }
 p0=$(cd $out && PYTHONPATH=$wt /venv/bin/python demo$k.py >/dev/null 2>&1; echo $?)
@@ -10,9 +10,9 @@ git apply $out/patch$k.diff || { echo "patch does not apply"; exit 2; }
 suite=$(PYTHONPATH=$wt /venv/bin/python -m pytest -q -p no:cacheprovider --timeout=900 --continue-on-collection-errors 2>&1 | tail -1)
 p1=$(cd $out && PYTHONPATH=$wt /venv/bin/python demo$k.py >/dev/null 2>&1; echo $?)
 git checkout -q -- .
-echo "$id-$k pristine_demo_rc=$p0 mutated_demo_rc=$p1 suite: $suite"
+echo "$id-$kk pristine_demo_rc=$p0 mutated_demo_rc=$p1 suite: $suite"
 if [ "$p0" = 0 ] && [ "$p1" != 0 ] && echo "$suite" | grep -q "2 failed, 1234 passed"; then
-  d=/verif/seeded/$id-$k; mkdir -p $d
+  d=/verif/seeded/$id-$kk; mkdir -p $d
   cp $out/patch$k.diff $d/patch.diff; cp $out/demo$k.py $d/demo.py
   python3 - "$out/meta$k.json" "$d/meta.json" "$suite" <<'PY'
 import json,sys
